@@ -121,6 +121,22 @@ def _step(env, st, roots=None):
         roots.update(newroots)
 
 
+def _cond_drop(blocks, cur, t):
+    """switch `t` ending block cur is `if flag { drop(x) }`: returns (drop block, join block) or None"""
+    tgts = set(tg for (_, tg) in t["arms"]) | {t["otherwise"]}
+    if len(tgts) != 2:
+        return None
+    a, b = sorted(tgts)
+    for d, j in ((a, b), (b, a)):
+        bd = blocks[d]
+        if bd["cleanup"] or bd["term"]["t"] != "drop" or bd["term"].get("target") != j or bd["term"]["place"]["proj"]:
+            continue
+        if any(st.get("s") == "assign" and not (st["rv"]["r"] == "use" and st["rv"]["op"]["o"] == "const") for st in bd["stmts"]):
+            continue
+        return d, j
+    return None
+
+
 def _call_knowledge(body, env, t):
     """knowledge about the destination of a plumbing call, or None if the call is not plumbing"""
     ce = t.get("callee", {})
@@ -255,6 +271,14 @@ def thread_bools(body):
                             nxt = tg
                     resolved += 1
                     cur_resolves = True
+                elif _cond_drop(blocks, cur, t) is not None:
+                    # `if flag { drop(x) }` -- a conditional drop on the way: both sides meet again right after it; the whole
+                    # diamond is duplicated, the walk goes on at the join
+                    dblk, join = _cond_drop(blocks, cur, t)
+                    if dblk not in seen and join not in seen:
+                        _kill(env2, blocks[dblk]["term"]["place"]["l"], roots2)
+                        call_dup = ("diamond", copy.deepcopy(t), copy.deepcopy(blocks[dblk]), dblk, join)
+                        nxt = join
             elif t["t"] == "drop" and t.get("target") is not None:
                 # a destructor on the way (the `Some(_)` of a matched value): the duplicated path runs it once as well
                 _kill(env2, t["place"]["l"], roots2)
@@ -273,8 +297,8 @@ def thread_bools(body):
                     nxt = t["target"]
             if nxt is None or nst + len(cb["stmts"]) > MAX_STMTS:
                 break
-            if resolved and not (t["t"] == "switch" and nxt is not None and cur_resolves) and not all(st.get("s") == "other" or (st.get("s") == "assign" and st["rv"]["r"] == "use") for st in cb["stmts"]):
-                break  # past the re-test only pure value shuffling (the `?` plumbing of an error exit) is duplicated
+            if resolved and not (t["t"] == "switch" and nxt is not None and cur_resolves) and not all(st.get("s") == "other" or (st.get("s") == "assign" and (st["rv"]["r"] in ("use", "discr") or (st["rv"]["r"] == "aggregate" and st["rv"].get("path") == "std::result::Result" and st["rv"].get("variant") == "Err"))) for st in cb["stmts"]):
+                break  # past the re-test only pure value shuffling (the `?` plumbing of an error exit, an `Err(e)` re-wrap) is duplicated
             # pass the block
             seen.add(cur)
             for st in cb["stmts"]:
@@ -300,14 +324,26 @@ def thread_bools(body):
         if nblocks == 1 and not dup[0]:
             entry = final
         else:
+            extra = []
             for i in range(nblocks):
                 if i < nblocks - 1:
                     term = terms[i]
-                    term["target"] = first_new + i + 1
+                    if isinstance(term, tuple) and term[0] == "diamond":
+                        _, sw, dcopy, dblk, join = term
+                        xi = first_new + nblocks + len(extra)
+                        sw["arms"] = [[v_, (xi if tg_ == dblk else first_new + i + 1)] for (v_, tg_) in sw["arms"]]
+                        sw["otherwise"] = xi if sw["otherwise"] == dblk else first_new + i + 1
+                        dcopy["term"]["target"] = first_new + i + 1
+                        dcopy["threaded"] = True
+                        extra.append(dcopy)
+                        term = sw
+                    else:
+                        term["target"] = first_new + i + 1
                 else:
                     term = {"t": "goto", "target": final}
                 sp = spans[i] or (span, fil)
                 blocks.append({"stmts": dup[i], "term": term, "cleanup": False, "span": sp[0], "file": sp[1], "threaded": True})
+            blocks.extend(extra)
             entry = first_new
         if t0["t"] == "goto":
             bl["term"] = {"t": "goto", "target": entry}
